@@ -2460,6 +2460,233 @@ theorem forwardMsg_exact (w : World) (j : Nat) (s : Trxd.TxMsg) (src : Trx) (fnI
       · exact absurd hval hne
   · rw [h0 hm, if_neg (fun h => hm h.1)]
 
+/-! ### the forwarding step returns normally (no exception reaches the clock thread) -/
+
+theorem genMsg_err_valueError (m : Trxd.RxMsg) (l : Bool) (e : Trxd.Exc) (h : m.genMsg l = .error e) :
+    e = .valueError := by
+  cases hv : m.validate with
+  | ok u =>
+    obtain ⟨b, hb⟩ := Codec.genMsg_ok_of_validate m l hv
+    rw [hb] at h; cases h
+  | error e' =>
+    rw [Codec.genMsg_err_of_validate m l e' hv] at h
+    injection h with h
+    rw [← h]; exact Codec.validate_err m e' hv
+
+/-- `DATAInterface.send_msg` never raises: `gen_msg` can only fail with the ValueError it catches -/
+theorem sendMsg_total (t : Trx) (m : Trxd.RxMsg) (l : Bool) : ∃ ds, sendMsg t m l = .ok ds := by
+  rw [sendMsg_eq]
+  cases h : m.genMsg l with
+  | ok b => exact ⟨_, rfl⟩
+  | error e =>
+    have := genMsg_err_valueError m l e h
+    subst this
+    exact ⟨_, rfl⟩
+
+theorem suppressOut_total (t : Trx) (m : Trxd.RxMsg) : ∃ ds, suppressOut t m = .ok ds := by
+  unfold suppressOut
+  split
+  · exact ⟨_, rfl⟩
+  · exact sendMsg_total _ _ _
+
+theorem passOn_total (w : World) (r src : Trx) (s : Trxd.TxMsg) (m : Trxd.RxMsg) (bits : List Nat)
+    (pwr : Int) (hthr : Spec.ThrNonneg r) (hp : s.pwr = some pwr) (hb : s.burst = some bits) :
+    ∃ w' ds, passOn w r src s m = .ok (w', ds) := by
+  unfold passOn
+  obtain ⟨toa, w1, h1⟩ := randAround_total w r.toaBase r.toaThr hthr.1
+  rw [h1]
+  dsimp only
+  obtain ⟨rssi, w2, h2⟩ : ∃ v w2, rssiOf w1 r src s = .ok (v, w2) := by
+    unfold rssiOf
+    split
+    · rw [hp]; exact ⟨_, _, rfl⟩
+    · exact randAround_total _ _ _ hthr.2.1
+  rw [h2]
+  dsimp only
+  obtain ⟨m2, w3, h3⟩ : ∃ m2 w3, v1Fields w2 r s m.ver
+      { m with nopeInd := false, toa256 := some toa, rssi := some rssi } = .ok (m2, w3) := by
+    unfold v1Fields
+    split
+    · obtain ⟨ci, w3, h3⟩ := randAround_total w2 r.ciBase r.ciThr hthr.2.2
+      rw [h3, hb]
+      exact ⟨_, _, rfl⟩
+    · exact ⟨_, _, rfl⟩
+  rw [h3]
+  dsimp only
+  obtain ⟨ds, h4⟩ := sendMsg_total r (applyTa src toa m2) true
+  rw [h4]
+  exact ⟨_, _, rfl⟩
+
+theorem handleDataMsg_total (w : World) (k j : Nat) (s : Trxd.TxMsg) (r src : Trx) (fn pwr : Int)
+    (bits : List Nat) (rx : Trxd.RxMsg)
+    (hk : w.trxs[k]? = some r) (hj : w.trxs[j]? = some src) (hwf : Spec.DropWF r)
+    (hthr : Spec.ThrNonneg r) (hfn : s.fn = some fn) (hp : s.pwr = some pwr) (hb : s.burst = some bits)
+    (hbits : ∀ b ∈ bits, b < 256) (hrx : (fwdInput src s).trans (some r.hdrVer) = .ok rx) :
+    ∃ w' dk, handleDataMsg w k j (fwdInput src s) rx = .ok (w', dk) := by
+  by_cases hsm : src.rfMuted = true
+  · have hin : fwdInput src s = { s with burst := none } := by simp only [fwdInput, hsm, if_true]
+    rw [hin] at hrx ⊢
+    rw [trans_noburst _ _ rfl] at hrx
+    injection hrx with hrx
+    have hnope : rx.nopeInd = true := by rw [← hrx]
+    rw [handleDataMsg_muted w k j _ rx r src hk hj (.inr hnope)]
+    obtain ⟨ds, hs⟩ := suppressOut_total r rx
+    rw [hs]; exact ⟨_, _, rfl⟩
+  · have hsm' : src.rfMuted = false := by simpa using hsm
+    have hin : fwdInput src s = s := by simp only [fwdInput, hsm', Bool.false_eq_true, if_false]
+    rw [hin] at hrx ⊢
+    rw [trans_burst s _ bits hb hbits] at hrx
+    injection hrx with hrx
+    have hnope : rx.nopeInd = false := by rw [← hrx]; exact fresh_nope
+    have hfn' : rx.fn = some fn := by rw [← hrx]; exact hfn
+    obtain ⟨ds, hs⟩ := suppressOut_total r rx
+    by_cases hrm : r.rfMuted = true
+    · rw [handleDataMsg_muted w k j _ rx r src hk hj (.inl hrm), hs]; exact ⟨_, _, rfl⟩
+    · have hrm' : r.rfMuted = false := by simpa using hrm
+      rw [handleDataMsg_live w k j _ rx r src fn hk hj hrm' hnope hfn' hwf]
+      split
+      · rw [hs]; exact ⟨_, _, rfl⟩
+      · exact passOn_total w r src s rx bits pwr hthr hp hb
+
+theorem handleSeq_total (j : Nat) (m : Trxd.TxMsg) (w0 : World) (ks0 : List Nat)
+    (step : ∀ (w : World) (k : Nat), k ∈ ks0 → w.trxs[k]? = w0.trxs[k]? → w.trxs[j]? = w0.trxs[j]? →
+      ∃ r rx w' dk, w.trxs[k]? = some r ∧ m.trans (some r.hdrVer) = .ok rx ∧
+        handleDataMsg w k j m rx = .ok (w', dk)) :
+    ∀ (ks : List Nat) (w : World), (∀ k ∈ ks, k ∈ ks0) → ks.Nodup → j ∉ ks →
+      (∀ i, i ∈ ks ∨ i = j → w.trxs[i]? = w0.trxs[i]?) →
+      ∃ w' out, handleSeq j m w ks = .ok (w', out) := by
+  intro ks
+  induction ks with
+  | nil => intro w _ _ _ _; exact ⟨_, _, rfl⟩
+  | cons k ks ih =>
+    intro w hsub hnd hj hsame
+    rw [List.nodup_cons] at hnd
+    obtain ⟨r, rx, w1, dk, hr, hrx, hh⟩ := step w k (hsub k (List.mem_cons_self ..))
+      (hsame k (.inl (List.mem_cons_self ..))) (hsame j (.inr rfl))
+    have hkj : k ≠ j := fun e => hj (by rw [← e]; exact List.mem_cons_self ..)
+    have hsame' : ∀ i, i ∈ ks ∨ i = j → w1.trxs[i]? = w0.trxs[i]? := by
+      intro i hi
+      have hik : i ≠ k := by
+        rcases hi with hi | hi
+        · exact fun e => hnd.1 (by rw [← e]; exact hi)
+        · rw [hi]; exact fun e => hkj e.symm
+      rw [handleDataMsg_others _ _ _ _ _ _ _ hh i hik]
+      exact hsame i (hi.elim (fun h => .inl (List.mem_cons_of_mem _ h)) .inr)
+    obtain ⟨w2, out, hrest⟩ := ih w1 (fun k' h => hsub k' (List.mem_cons_of_mem _ h)) hnd.2
+      (fun h => hj (List.mem_cons_of_mem _ h)) hsame'
+    simp only [handleSeq, hr, hrx, hh, hrest]
+    exact ⟨_, _, rfl⟩
+
+/-- with well-formed simulation parameters (as the TRXC handlers establish them) and a message
+that carries an attenuation and burst octets, the forwarding step cannot raise -/
+theorem forwardMsg_total (w : World) (j : Nat) (s : Trxd.TxMsg) (src : Trx) (fnI pwr : Int)
+    (bits : List Nat) (hj : w.trxs[j]? = some src) (hfn : s.fn = some fnI) (hp : s.pwr = some pwr)
+    (hb : s.burst = some bits) (hbits : ∀ b ∈ bits, b < 256) (hok : Spec.FreqOk w fnI.toNat)
+    (hwf : ∀ t ∈ w.trxs, Spec.DropWF t) (hthr : ∀ t ∈ w.trxs, Spec.ThrNonneg t) :
+    ∃ w' out, forwardMsg w j s = .ok (w', out) := by
+  rw [forwardMsg_eq w j s src fnI hj hfn hok]
+  refine handleSeq_total j (fwdInput src s) w (Spec.recipients w j fnI.toNat) ?_ _ w
+    (fun _ h => h) (recipients_nodup ..) (sender_not_recipient _ _ _) (fun _ _ => rfl)
+  intro w1 k hk hk1 hj1
+  have hkl := ((mem_recipients w j fnI.toNat k).1 hk).1
+  have hr0 : w.trxs[k]? = some w.trxs[k] := List.getElem?_eq_getElem hkl
+  have hr : w1.trxs[k]? = some w.trxs[k] := by rw [hk1]; exact hr0
+  have hmem := getElem?_mem _ _ _ hr0
+  obtain ⟨rx, hrx⟩ : ∃ rx, (fwdInput src s).trans (some (w.trxs[k]).hdrVer) = .ok rx := by
+    unfold fwdInput
+    split
+    · exact ⟨_, trans_noburst _ _ rfl⟩
+    · exact ⟨_, trans_burst s _ bits hb hbits⟩
+  obtain ⟨w2, dk, hh⟩ := handleDataMsg_total w1 k j s w.trxs[k] src fnI pwr bits rx hr
+    (by rw [hj1]; exact hj) (hwf _ hmem) (hthr _ hmem) hfn hp hb hbits hrx
+  exact ⟨_, rx, w2, dk, hr, hrx, hh⟩
+
+/-! ### the TRXC handlers establish the well-formedness hypotheses -/
+
+section
+open OsmoVerif.PyStr
+
+/-- the well-formedness hypotheses of the burst-path theorems -/
+def SimWF (t : Trx) : Prop := Spec.DropWF t ∧ Spec.ThrNonneg t
+
+theorem simWF_default (addr port idx : Nat) (mgt clk : Bool) :
+    SimWF { addr := addr, basePort := port, childIdx := idx, childMgt := mgt, hasClock := clk } := by
+  simp only [SimWF, Spec.DropWF, Spec.ThrNonneg]
+  decide
+
+/-- every assignment the custom TRXC handler makes keeps them -/
+theorem ctrlCmdHandler_simWF (req : List Str) (p : Patch) (rc : Option Int) (t : Trx)
+    (h : ctrlCmdHandler req = .ok (some p, rc)) (hwf : SimWF t) : SimWF (p.apply t) := by
+  obtain ⟨⟨d0, d1⟩, t0, t1, t2⟩ := hwf
+  unfold ctrlCmdHandler at h
+  simp only [bind, Except.bind, pure, Except.pure] at h
+  by_cases c0 : verifyCmd req "SETTA" 1 = true
+  · rw [if_pos c0] at h
+    repeat' split at h
+    all_goals cases h
+    all_goals (simp only [SimWF, Spec.DropWF, Spec.ThrNonneg, Patch.apply]; omega)
+  rw [if_neg c0] at h
+  by_cases c1 : verifyCmd req "FAKE_TOA" 2 = true
+  · rw [if_pos c1] at h
+    repeat' split at h
+    all_goals cases h
+    all_goals (simp only [SimWF, Spec.DropWF, Spec.ThrNonneg, Patch.apply]; omega)
+  rw [if_neg c1] at h
+  by_cases c2 : verifyCmd req "FAKE_TOA" 1 = true
+  · rw [if_pos c2] at h
+    repeat' split at h
+    all_goals cases h
+    all_goals (simp only [SimWF, Spec.DropWF, Spec.ThrNonneg, Patch.apply]; omega)
+  rw [if_neg c2] at h
+  by_cases c3 : verifyCmd req "FAKE_RSSI" 2 = true
+  · rw [if_pos c3] at h
+    repeat' split at h
+    all_goals cases h
+    · simp only [SimWF, Spec.DropWF, Spec.ThrNonneg, Patch.apply]; omega
+    · rename_i a1 v1 e1 _ thr e2 hthr _ a2 e3 _ base e4 _ a3 e5 _ thr2 e6
+      injection e5 with e5; subst e5
+      rw [e2] at e6; injection e6 with e6; subst e6
+      simp only [SimWF, Spec.DropWF, Spec.ThrNonneg, Patch.apply]; omega
+  rw [if_neg c3] at h
+  by_cases c4 : verifyCmd req "FAKE_RSSI" 1 = true
+  · rw [if_pos c4] at h
+    repeat' split at h
+    all_goals cases h
+    all_goals (simp only [SimWF, Spec.DropWF, Spec.ThrNonneg, Patch.apply]; omega)
+  rw [if_neg c4] at h
+  by_cases c5 : verifyCmd req "FAKE_CI" 2 = true
+  · rw [if_pos c5] at h
+    repeat' split at h
+    all_goals cases h
+    all_goals (simp only [SimWF, Spec.DropWF, Spec.ThrNonneg, Patch.apply]; omega)
+  rw [if_neg c5] at h
+  by_cases c6 : verifyCmd req "FAKE_CI" 1 = true
+  · rw [if_pos c6] at h
+    repeat' split at h
+    all_goals cases h
+    all_goals (simp only [SimWF, Spec.DropWF, Spec.ThrNonneg, Patch.apply]; omega)
+  rw [if_neg c6] at h
+  by_cases c7 : verifyCmd req "FAKE_DROP" 1 = true
+  · rw [if_pos c7] at h
+    repeat' split at h
+    all_goals cases h
+    all_goals (simp only [SimWF, Spec.DropWF, Spec.ThrNonneg, Patch.apply]; omega)
+  rw [if_neg c7] at h
+  by_cases c8 : verifyCmd req "FAKE_DROP" 2 = true
+  · rw [if_pos c8] at h
+    repeat' split at h
+    all_goals cases h
+    all_goals (simp only [SimWF, Spec.DropWF, Spec.ThrNonneg, Patch.apply]; omega)
+  rw [if_neg c8] at h
+  by_cases c9 : verifyCmd req "FAKE_TRXC_DELAY" 1 = true
+  · rw [if_pos c9] at h
+    repeat' split at h
+    all_goals cases h
+    all_goals (simp only [SimWF, Spec.DropWF, Spec.ThrNonneg, Patch.apply]; omega)
+  rw [if_neg c9] at h
+  cases h
+end
+
 end OsmoVerif.World
 
 /-! ### concrete worlds for the non-vacuity examples of Props/C02, C10, C18 -/
